@@ -104,6 +104,15 @@ package cluster
 //@ callers-only[local-counts-remove] (*State).RemoveLocalEndpoint : (*LoadBalancedManager).RemoveConn serves C05 C20
 //@ callers-only[subscribe] (*State).OnLocalEndpointUpdate : (*syncer).Sync serves C05 C20
 
+// Ownership (C04): remote nodes of the routing table are written only by the
+// gossip syncer's watcher callbacks (which run one at a time, under the gossip
+// state mutex), so the syncer's mirror invariant is not disturbed by anyone else.
+//@ callers-only[remote-add] (*State).AddNode : (*syncer).OnUpsertKey serves C04 C20
+//@ callers-only[remote-remove] (*State).RemoveNode : (*syncer).OnExpired serves C04 C11 C20
+//@ callers-only[remote-status] (*State).UpdateRemoteStatus : (*syncer).OnLeave, (*syncer).OnReachable, (*syncer).OnUnreachable serves C04 C11 C20
+//@ callers-only[remote-endpoint-set] (*State).UpdateRemoteEndpoint : (*syncer).OnUpsertKey serves C04 C20
+//@ callers-only[remote-endpoint-del] (*State).RemoveRemoteEndpoint : (*syncer).OnDeleteKey serves C04 C20
+
 // Status routes (C09): registered only on the group given, so behind its chain.
 //@ contract (*Status).Register
 //@   serves C09
